@@ -1,2 +1,4 @@
 //! Independent reference model of ISO-BMFF (never calls into `mp4`).
 pub mod kitchen;
+pub mod parse;
+pub mod validate;
